@@ -514,6 +514,58 @@ ZONES = {"fixed:ref-to-key-of-first-sibling-scope": "key-scope-below-keyref-scop
          "fixed:keyref-no-reference-no-key-scope": "keyref-scope-differs-from-key-scope",
          "fixed:overlapping-selector-union": "overlapping-selector-union"}
 
+# ---- counterfactual Spec verdicts: a recorded deviation is recognised by evaluating the Spec on the case as the deviating
+# code sees it, not by the features of the case
+def _rewrite_abstract(ab, f_nil, f_empty):
+    """rewrite the values of the tree of an abstract case: f_nil(type letter) for the value of a nilled element (the nil flag
+    is cleared), f_empty(type letter) for an empty non-nilled value; None = leave as it is"""
+    head, tree = ab.split(" T ", 1)
+    t = tree.split(" ")
+    out = []; pos = [0]
+    def val(v, nil):
+        if v == "-": return v
+        L = v.split(":")[0]
+        empty = v.split(":")[1] == ""
+        if nil: return f_nil(L) or v
+        if empty: return f_empty(L) or v
+        return v
+    def go():
+        assert t[pos[0]] == "E"
+        name, flags, nattrs = t[pos[0] + 1], int(t[pos[0] + 2]), int(t[pos[0] + 3])
+        pos[0] += 4
+        nil = bool(flags & 2)
+        if nil and f_nil("s") is not None: flags &= ~2
+        out.extend(["E", name, str(flags), str(nattrs)])
+        for _ in range(nattrs):
+            out.extend([t[pos[0]], val(t[pos[0] + 1], False)]); pos[0] += 2
+        out.append(val(t[pos[0]], nil)); nk = int(t[pos[0] + 1]); out.append(t[pos[0] + 1]); pos[0] += 2
+        for _ in range(nk): go()
+    go()
+    return head + " T " + " ".join(out)
+
+_mark = lambda tag, L: "s:" + hexlex("\x01%s-%s" % (tag, L))
+COUNTERFACTUALS = [
+    # ICValueHasher::isDuplicateOf: two EMPTY stored values (a nilled element is stored as an empty value) are equal only if
+    # their validators are the same object
+    ("ic:impl+IC_KeyNotFound:empty-value-cross-type", lambda L: _mark("N", L), lambda L: _mark("E", L)),
+    # a nilled element is stored as the empty string of its type: it equals an empty (non-nilled) value
+    ("ic:nilled-field-equals-empty-value", lambda L: "s:", lambda L: None),
+]
+_cf_cache = {}
+def counterfactual_keys(case, ikinds):
+    """keys of the recorded deviations under which the Spec gives exactly the implementation's classes for this case"""
+    ab = case["abstract"]
+    if ab not in _cf_cache:
+        variants = [_rewrite_abstract(ab, fn, fe) for _, fn, fe in COUNTERFACTUALS]
+        variants.append(_rewrite_abstract(ab, lambda L: _mark("E", L), lambda L: _mark("E", L)))      # both at once
+        o = common.run_driver(["ic"], input=("\n".join(variants) + "\n").encode()).decode().split("\n")
+        _cf_cache[ab] = [parse_model(x)[0] for x in o[:len(variants)]]
+    v = _cf_cache[ab]
+    for k, (key, _, _) in enumerate(COUNTERFACTUALS):
+        if v[k] == ikinds: return [key]
+    if v[-1] == ikinds: return [key for key, _, _ in COUNTERFACTUALS]
+    return []
+
 def categorize(case, skinds, ikinds):
     """stable category of a Spec/implementation difference"""
     extra = sorted(ikinds - skinds); missing = sorted(skinds - ikinds)
@@ -529,7 +581,6 @@ def categorize(case, skinds, ikinds):
     tag = "plain"
     if "unprefixed-qname-in-default-namespace" in feats and all(x in ("IC_DuplicateUnique", "IC_DuplicateKey", "IC_KeyNotFound") for x in extra + missing):
         return "ic:unprefixed-qname-in-default-namespace"
-    if "cross-type" in feats and "empty-value" in feats and "IC_KeyNotFound" in extra: tag = "empty-value-cross-type"
     return "ic:" + ",".join(["impl+" + e for e in extra] + ["impl-" + e for e in missing]) + ":" + tag
 
 def judge(case, mline, iline):
@@ -560,6 +611,11 @@ def judge(case, mline, iline):
         if "IC_FieldMultipleMatch" not in ikinds:
             bad.append((categorize(case, skinds, ikinds) if "overlapping-selector-union" in feats else "ic:impl-IC_FieldMultipleMatch", "a field evaluates to more than one node (Spec: IC_FieldMultipleMatch) but the implementation reports %s" % sorted(ikinds), True))
         return bad, (icm == mm), skinds
+    if skinds != ikinds and ({"nil", "empty-value"} & set(feats)):
+        keys = counterfactual_keys(case, ikinds)
+        if keys:
+            return [(k, "Spec icCheck: %s; implementation reports %s (exactly what the Spec gives when empty / nilled values are "
+                        "compared as this deviation of the code does)" % (sp, sorted(ikinds) or "no identity-constraint error"), True) for k in keys], None, skinds
     if skinds != ikinds and "overlapping-selector-union" in feats:
         return [(categorize(case, skinds, ikinds), "Spec icCheck: %s; implementation reports %s" % (sp, sorted(ikinds) or "no identity-constraint error"), True)], None, skinds
     if skinds != ikinds:
@@ -630,6 +686,16 @@ def fixed_cases():
     Rs = {"id": 1, "kind": "r", "scope": "root", "sel": [[S, C("grp", e), C("ref", e)]], "fields": [[[S, A("b2")]]], "carriers": [("ref", "@b2")], "refer": 0}
     out.append(mk(False, [Ks, Rs], {("ref", "@b2"): "token"}, root(g(node("rec", e, attrs=[("a2", "string", "")]), node("ref", e, attrs=[("b2", "token", "")]))),
                   "fixed:empty-values-of-related-types"))
+    # a nilled xs:token key field and a nilled xs:string reference field (isDuplicateOf: empty values, different validators)
+    Un = {"id": 0, "kind": "u", "scope": "root", "sel": [[S, C("grp", e), C("rec", e)]], "fields": [[[S, C("f1", e)]]], "carriers": [("rec", "f1")], "refer": None}
+    Rn = {"id": 1, "kind": "r", "scope": "root", "sel": [[S, C("grp", e), C("ref", e)]], "fields": [[[S, C("g1", e)]]], "carriers": [("ref", "g1")], "refer": 0}
+    niln = lambda el, f, ty: node(el, e, kids=[node(f, e, text=(ty, ""), nillable=True, nil=True)])
+    out.append(mk(False, [Un, Rn], {("rec", "f1"): "token", ("ref", "g1"): "string"}, root(g(niln("rec", "f1", "token"), niln("ref", "g1", "string"))),
+                  "fixed:nilled-fields-of-related-types", nillable=[("rec", "f1"), ("ref", "g1")]))
+    # a nilled reference field and an empty-string key
+    Rg2 = {"id": 1, "kind": "r", "scope": "root", "sel": [[S, C("grp", e), C("ref", e)]], "fields": [[[S, C("g2", e)]]], "carriers": [("ref", "g2")], "refer": 0}
+    out.append(mk(False, [Ks, Rg2], {}, root(g(node("rec", e, attrs=[("a2", "string", "")]), niln("ref", "g2", "string"))),
+                  "fixed:nilled-reference-and-empty-string-key", nillable=[("ref", "g2")]))
     UQ = {"id": 0, "kind": "u", "scope": "root", "sel": [[S, C("grp", 1), C("rec", 1)]], "fields": [[[S, C("f2", 1)]]], "carriers": [("rec", "f2")], "refer": None}
     qrec = lambda v: node("rec", 1, kids=[node("f2", 1, text=("QName", v))])
     out.append(mk(True, [UQ], {("rec", "f2"): "QName"}, node("root", 1, kids=[node("grp", 1, kids=[qrec((1, "x")), qrec((-1, "x"))])]),
